@@ -93,8 +93,8 @@ def pop3d_jobs(ck, thorough):
                 if any(c[0] == b"QUIT" for c in seq[:-1]):
                     continue
                 seq = list(seq)
-                if seq[-1][0] != b"QUIT" and ln < L:
-                    add(files, seq + [(b"QUIT", b"")], tag="enum")
+                # sequences ending in QUIT are the "... then QUIT" variants of the shorter ones; the others end by a
+                # dropped connection, after a listing that shows the marks
                 add(files, seq + ([(b"LIST", b"")] if seq[-1][0] not in (b"QUIT", b"LIST") else []), tag="enum")
     # (c) seeded random sessions: random populations, longer sequences, vanishing files, mixed case
     nrand = 6000 if thorough else 1500
